@@ -16,6 +16,41 @@ CLAIMED = {
         technique="symbolic execution (CrossHair/z3) of real code, path-tree exhaustion + QF_BV lemmas",
         ref="3/C01",
     ),
+    "C02": dict(
+        text="Symbolic execution of the real type constructors: array capacity is a symbolic integer covering every "
+        "value up to 2**64 (prefix-width boundaries 2**8/2**16/2**32 and the rejection at 2**64 are inside one "
+        "exhausted condition), variant count symbolic up to 2**64 through the real static tag helper, extents "
+        "64*q+r symbolic, parametrised composite shapes with symbolic capacities vs an interval oracle written from "
+        "the Specification; exact set equality (expansion, residues mod 8/16/32/64/3/7) for the shape catalogue with "
+        "small capacities as choice variables.",
+        note="Shapes are scaffolding (catalogue in vp/types.py + parametrised shapes, depth <= 3). math.log2 realises "
+        "its argument, so the engine enumerates the <= 65 bit lengths of a capacity rather than reasoning about them "
+        "symbolically. Trusts CrossHair int model + z3; counterexamples are replayed concretely.",
+        technique="symbolic execution (CrossHair/z3) of real constructors vs Specification oracle, path-tree exhaustion",
+        ref="3/C02",
+    ),
+    "C11": dict(
+        text="Symbolic execution of the real cross-definition checks on real Structure/Delimited/Service objects: "
+        "majors, minors, port-IDs (present/absent) and extents are symbolic over their whole legal ranges; accepted "
+        "<=> the rule as stated in C11, for every pair (collision rule, pairwise minor rule, both argument orders) "
+        "and for the grouping function on 2-3 definitions.",
+        note="Kinds/names/sealing are enumerated scaffolding; majors in the grouping conditions come from {0,1,2,255} "
+        "because the code keys a dict by them (realisation). Which lists the reader passes to these functions is "
+        "covered under C19, not here.",
+        technique="symbolic execution (CrossHair/z3) of real functions vs rule oracle, path-tree exhaustion",
+        ref="3/C11",
+    ),
+    "C12": dict(
+        text="Symbolic execution of the real Constant constructor: the initializer is an UNBOUNDED symbolic integer "
+        "(or n/den with unbounded n, den in {2,3,5,7,10}; or largest-finite + n/den for floats; or a string of 0..2 "
+        "symbolic characters) for every width 1..64 x signedness x cast mode; accepted <=> the Specification's range "
+        "rule and the stored value equals the initializer exactly.",
+        note="Denominators are concrete (symbolic gcd forks without bound). Error-message formatting is stubbed "
+        "(template returned un-interpolated when an argument is symbolic). Text-level path (`int7 K = a`) is covered "
+        "under C04/C05 sinks.",
+        technique="symbolic execution (CrossHair/z3) of real constructor vs range oracle, path-tree exhaustion",
+        ref="3/C12",
+    ),
 }
 
 NOT_APPLICABLE = {
